@@ -81,7 +81,7 @@ fn fixed_cases() -> Vec<Case> {
   let r1 = json!({"id": "r1", "language": "JavaScript", "severity": "warning", "message": "m", "rule": {"pattern": "foo($A)"}, "fix": "bar($A)"});
   let r2 = json!({"id": "r2", "language": "JavaScript", "severity": "warning", "message": "m", "rule": {"pattern": "foo(foo($A))"}, "fix": "baz($A)"});
   let r3 = json!({"id": "r3", "language": "JavaScript", "severity": "warning", "message": "m", "rule": {"pattern": "keep($A)"}, "fix": "kept($A)"});
-  let r4 = json!({"id": "r4", "language": "Css", "severity": "warning", "message": "m", "rule": {"pattern": "color: red"}, "fix": "color: blue"});
+  let r4 = json!({"id": "r4", "language": "Css", "severity": "warning", "message": "m", "rule": {"kind": "declaration", "regex": "^color: red"}, "fix": "color: blue"});
   let r5 = json!({"id": "r5", "language": "Html", "severity": "warning", "message": "m", "rule": {"pattern": "<b>$$$A</b>"}, "fix": "<i>$$$A</i>"});
   let r6 = json!({"id": "r6", "language": "TypeScript", "severity": "warning", "message": "m", "rule": {"pattern": "foo($A)"}, "fix": "bar($A)"});
   let r7 = json!({"id": "r7", "language": "JavaScript", "severity": "warning", "message": "m", "rule": {"pattern": "debugger;"}, "fix": ""});
@@ -119,6 +119,14 @@ f([m1, k, m2, \"é\", m3]);
     Case { id: "scan-html-many".into(),
            files: (0..160).map(|i| (format!("w/d{}/p{i}.html", i % 7), format!("<html><body><p><b>hello {i}</b></p>\n<style>\na {{ color: red }}\n</style>\n<script>\nfoo({i});\n</script>\n<b>é {i}</b></body></html>\n"))).collect(),
            rules: vec![r1.clone(), r4.clone(), r5.clone()], stmt_mode: false },
+    // documents made by a `languageInjections` entry of the project: css inside styled`..` templates of a JavaScript file,
+    // next to fixes of the host document, on several lines and behind multi-byte text
+    Case { id: "scan-custom-injection".into(),
+           files: vec![("s.js".into(), "foo(1);\nconst a = styled`\n  a { color: red }\n  b { color: red; margin: 0 }\n`;\nconst é = styled`c { color: red }`; foo(\"é\");\nconst e = styled``;\n".into()),
+                       ("t.js".into(), "const n = styled`x { color: red; ${ styled`y { color: red }` } }`;\nfoo(2);\n".into())],
+           rules: vec![r1.clone(), r4.clone(),
+                       json!({"sgconfig": {"languageInjections": [{"hostLanguage": "js", "rule": {"pattern": "styled`$CONTENT`"}, "injected": "css"}]}})],
+           stmt_mode: false },
     Case { id: "scan-no-match".into(), files: vec![("n.js".into(), "keep();\n".into())], rules: vec![r1], stmt_mode: false },
   ]
 }
@@ -149,8 +157,9 @@ fn run_case(c: &Case, scratch: &str, idx: usize) -> Vec<Value> {
       vec!["run".into(), "-p".into(), "foo($A)".into(), "-r".into(), "bar($A)".into()]
     }
   } else {
-    p.config(None);
-    for r in &c.rules {
+    // an entry {"sgconfig": {..}} among the rules stands for extra keys of sgconfig.yml (languageInjections, ...)
+    p.config(c.rules.iter().find_map(|r| r.get("sgconfig")));
+    for r in c.rules.iter().filter(|r| r.get("sgconfig").is_none()) {
       p.rule(&format!("{}.yml", r["id"].as_str().unwrap()), r);
     }
     vec!["scan".into()]
